@@ -5,7 +5,7 @@ Inductive c11_case :=
 | HostCase (input obs_hostname obs_domain : bytes)
 | PolicyCase (p : policy) (target : bytes) (via : list bytes) (obs_allowed : bool)
 | ChainCase (ps : list policy) (init : bytes) (targets : list bytes)
-            (obs_sent : list (bytes * bool)) (obs_refused : bool).
+            (obs_sent : list (bytes * (nat * nat))) (obs_refused : bool).
 
 (* Host header as net/http writes it: an empty port is dropped ("h:" -> "h") *)
 Definition drop_empty_port (h : bytes) : bytes :=
@@ -14,8 +14,9 @@ Definition drop_empty_port (h : bytes) : bytes :=
   | [] => h
   end.
 
-Definition sent_eqb (a : sent) (b : bytes * bool) : bool :=
-  bytes_eqb (drop_empty_port (s_host a)) (drop_empty_port (fst b)) && Bool.eqb (s_sensitive a) (snd b).
+Definition sent_eqb (a : sent) (b : bytes * (nat * nat)) : bool :=
+  bytes_eqb (drop_empty_port (s_host a)) (drop_empty_port (fst b)) &&
+  Nat.eqb (s_auth a) (fst (snd b)) && Nat.eqb (s_cookie a) (snd (snd b)).
 
 Definition c11_check (c : c11_case) : bool :=
   match c with
